@@ -358,3 +358,56 @@ Definition denote_mismatches (cases : list (nat * (string * list (string * strin
                        match denote cur (unalias_of imps) e with
                        | Some t' => if ty_eqb t t' then [] else [(i, 42)]
                        | None => [(i, 42)] end end) cases.
+
+(* ---------------- a checker for well-formedness, so that the correspondence can report how many of the observed types
+   fall under the theorem's hypothesis ---------------- *)
+Definition ends_in_slice (ps : list ty) : bool := match rev ps with TSlice _ :: _ => true | _ => false end.
+Definition ostr_is (o : option string) (n : string) : bool := match o with Some m => String.eqb m n | None => false end.
+Fixpoint wfb (cur : string) (t : ty) : bool :=
+  match t with
+  | TBasic n => mems n basics || String.eqb n "Pointer"
+  | TNamed p n targs =>
+      forallb (wfb cur) targs &&
+      (if String.eqb p "" then mems n universe_named && match targs with [] => true | _ => false end else true) &&
+      (if String.eqb p cur then negb (mems n basics) && negb (mems n universe_named) else true) &&
+      (if String.eqb p "unsafe" then negb (String.eqb n "Pointer") else true)
+  | TPtr e | TSlice e | TArray _ e | TChan _ e => wfb cur e
+  | TMap k v => wfb cur k && wfb cur v
+  | TFunc ps v rs => forallb (wfb cur) ps && forallb (wfb cur) rs && (if v then ends_in_slice ps else true)
+  | TStruct fs => forallb (fun f : string * bool * string * ty => match f with (n, emb, _, ft) => wfb cur ft && (if emb then ostr_is (embname ft) n else true) end) fs
+  | TIface ms => forallb (fun m : string * ty => wfb cur (snd m)) ms
+  end.
+
+Lemma ends_in_slice_spec ps : ends_in_slice ps = true -> exists front e, ps = (front ++ [TSlice e])%list.
+Proof.
+  unfold ends_in_slice. intros H. destruct (rev ps) as [|x r] eqn:E; [discriminate|]. destruct x; try discriminate.
+  exists (rev r), x. rewrite <- (rev_involutive ps), E. reflexivity.
+Qed.
+
+Theorem wfb_sound cur : forall t, wfb cur t = true -> wf cur t.
+Proof.
+  induction t using ty_ind2; cbn [wfb wf]; intros W.
+  - apply orb_true_iff in W. destruct W as [W|W]; [left; exact W | right; apply String.eqb_eq; exact W].
+  - apply andb_true_iff in W. destruct W as (W & W4). apply andb_true_iff in W. destruct W as (W & W3). apply andb_true_iff in W. destruct W as (W1 & W2).
+    split; [|split; [|split]].
+    + clear - H W1. induction H as [|a r Ha Hr IH]; [exact I|]. simpl in W1. apply andb_true_iff in W1. destruct W1 as (Wa & Wr). split; [apply Ha; exact Wa | apply IH; exact Wr].
+    + intros ->. cbn [String.eqb] in W2. apply andb_true_iff in W2. destruct W2 as (A & B). split; auto. destruct targs; [reflexivity|discriminate].
+    + intros ->. rewrite String.eqb_refl in W3. apply andb_true_iff in W3. destruct W3 as (A & B). split; apply negb_true_iff; auto.
+    + intros ->. rewrite String.eqb_refl in W4. apply negb_true_iff in W4. apply String.eqb_neq. exact W4.
+  - auto.
+  - auto.
+  - auto.
+  - apply andb_true_iff in W. destruct W. split; auto.
+  - auto.
+  - apply andb_true_iff in W. destruct W as (W & W3). apply andb_true_iff in W. destruct W as (W1 & W2). split; [|split].
+    + clear - H W1. induction H as [|a r Ha Hr IH]; [exact I|]. simpl in W1. apply andb_true_iff in W1. destruct W1 as (Wa & Wr). split; [apply Ha; exact Wa | apply IH; exact Wr].
+    + clear - H0 W2. induction H0 as [|a r Ha Hr IH]; [exact I|]. simpl in W2. apply andb_true_iff in W2. destruct W2 as (Wa & Wr). split; [apply Ha; exact Wa | apply IH; exact Wr].
+    + intros ->. apply ends_in_slice_spec. exact W3.
+  - induction H as [|[[[n emb] tag] ft] r Ha Hr IH]; [exact I|]. simpl in W. apply andb_true_iff in W. destruct W as (W1 & W2).
+    apply andb_true_iff in W1. destruct W1 as (A & B). simpl in Ha. split; [auto|]. split; [|apply IH; exact W2].
+    intros ->. unfold ostr_is in B. destruct (embname ft) as [m|]; [|discriminate]. apply String.eqb_eq in B. subst. reflexivity.
+  - induction H as [|[n mt] r Ha Hr IH]; [exact I|]. simpl in W. apply andb_true_iff in W. destruct W as (A & B). simpl in Ha. split; [apply Ha; exact A | apply IH; exact B].
+Qed.
+
+Definition wf_count (cases : list (nat * (string * list (string * string) * ty * ex))) : nat * nat :=
+  (List.length (filter (fun c => match c with (_, (cur, _, t, _)) => wfb cur t end) cases), List.length cases).
